@@ -268,6 +268,9 @@ func (e *Engine) acquire(st *State, class string, ref string, fx *FnExec) {
 	// assume the lock invariant
 	for _, li := range e.w.spec.LockInvs[class] {
 		g := e.evalClauseOn(li.Clause, st, nil, ref, fx)
+		if fl := e.envGuardFor(li.Clause.Tags); fl != "" {
+			g = "(=> " + fl + " " + g + ")"
+		}
 		e.assume(st, g)
 	}
 	snap := st.clone()
@@ -276,6 +279,18 @@ func (e *Engine) acquire(st *State, class string, ref string, fx *FnExec) {
 		// two-state specs of an atomic function refer to the state at its own first acquire; an acquire inside an
 		// inlined helper does not make the caller atomic
 		st.acq = snap
+		if fx.con != nil {
+			for _, ea := range fx.con.EnvAssume {
+				env := fx.specEnv(st, snap, nil)
+				sv := env.eval(ea.Expr)
+				if sv == nil || len(sv.V.L) != 1 {
+					continue
+				}
+				if fl := e.envGuardFor(fx.clauseTags(ea)); fl != "" {
+					e.assume(st, "(=> "+fl+" "+sv.V.L[0]+")")
+				}
+			}
+		}
 	}
 }
 
@@ -690,6 +705,7 @@ func (fx *FnExec) execCallWith(st *State, in ssa.CallInstruction, c *ssa.CallCom
 	}
 	if inScope && len(callee.Blocks) > 0 {
 		if e.depth < e.w.opts.InlineDepth && !e.onStack(callee) {
+			fx.checkCallSiteAsserts(st, key, pos)
 			return fx.inline(st, callee, args, binds, pos)
 		}
 		o := e.addObl("bind", "needs-contract:"+shortFnKey(key), nil, st, "false", pos)
@@ -823,6 +839,41 @@ func (fx *FnExec) bindResults(env *SpecEnv, names []string, sig *types.Signature
 
 // applyContract: assert requires, havoc the write set, assume ensures.
 func (fx *FnExec) applyContract(st *State, callee *ssa.Function, con *FnContract, args []*Val, sig *types.Signature, rt types.Type, pos token.Pos, key string) *Val {
+	res := fx.applyContract0(st, callee, con, args, sig, rt, pos, key)
+	fx.recordCallResult(st, key, res, rt)
+	return res
+}
+
+// recordCallResult stores the value returned by the n-th call of a callee made directly by the function under
+// verification in a ghost cell, so that its contract can refer to it as $call("name#n").
+func (fx *FnExec) recordCallResult(st *State, key string, res *Val, rt types.Type) {
+	e := fx.e
+	top := fx.topFx()
+	if e.suppress > 0 || res == nil || rt == nil || fx != top || top.callCount == nil {
+		return
+	}
+	if _, isTuple := rt.(*types.Tuple); isTuple {
+		return
+	}
+	short := shortFnKey(key)
+	name := short[strings.LastIndex(short, ".")+1:]
+	id := fmt.Sprintf("%s#%d", name, top.callCount[name])
+	leaves := e.fl.leaves(rt)
+	if len(leaves) != len(res.L) {
+		return
+	}
+	if top.callResT == nil {
+		top.callResT = map[string]types.Type{}
+	}
+	top.callResT[id] = rt
+	for i, l := range leaves {
+		k := fmt.Sprintf("G|$call:%s|%d", id, i)
+		e.regHeap(k, l.Sort, "callres_"+id+"_"+leafSuffix(l), "G", l.T)
+		e.heapSet(st, k, res.L[i])
+	}
+}
+
+func (fx *FnExec) applyContract0(st *State, callee *ssa.Function, con *FnContract, args []*Val, sig *types.Signature, rt types.Type, pos token.Pos, key string) *Val {
 	e := fx.e
 	e.usedContracts[key] = true
 	env := &SpecEnv{e: e, st: st, vars: map[string]*SV{}, pkg: con.Pkg}
@@ -1580,16 +1631,58 @@ func (e *Engine) assumeTrackedWF(st *State) {
 func (fx *FnExec) checkCallSiteAsserts(st *State, key string, pos token.Pos) {
 	e := fx.e
 	top := fx.topFx()
-	if top.con == nil || len(top.con.CallSites) == 0 || e.suppress > 0 {
+	if e.suppress > 0 {
 		return
 	}
 	short := shortFnKey(key)
 	name := short[strings.LastIndex(short, ".")+1:]
 	if top.callCount == nil {
 		top.callCount = map[string]int{}
+		top.callDyn = map[string]int{}
+		// call sites of the function itself are numbered per callee name in source order
+		top.callOrd = map[string]map[token.Pos]int{}
+		byName := map[string][]token.Pos{}
+		for _, b := range top.fn.Blocks {
+			for _, in := range b.Instrs {
+				ci, ok := in.(ssa.CallInstruction)
+				if !ok {
+					continue
+				}
+				cn := ""
+				if ci.Common().IsInvoke() {
+					cn = ci.Common().Method.Name()
+				} else if sc := ci.Common().StaticCallee(); sc != nil {
+					cn = sc.Name()
+				}
+				if cn != "" && in.Pos().IsValid() {
+					byName[cn] = append(byName[cn], in.Pos())
+				}
+			}
+		}
+		for cn, ps := range byName {
+			sort.Slice(ps, func(i, j int) bool { return ps[i] < ps[j] })
+			top.callOrd[cn] = map[token.Pos]int{}
+			for i, p := range ps {
+				if _, dup := top.callOrd[cn][p]; !dup {
+					top.callOrd[cn][p] = i + 1
+				}
+			}
+			top.callDyn[cn] = len(ps)
+		}
 	}
-	top.callCount[name]++
-	n := top.callCount[name]
+	n := 0
+	if fx == top {
+		n = top.callOrd[name][pos]
+	}
+	if n == 0 {
+		// a call made by an inlined callee: numbered after the function's own sites, in execution order
+		top.callDyn[name]++
+		n = top.callDyn[name]
+	}
+	top.callCount[name] = n
+	if top.con == nil || len(top.con.CallSites) == 0 {
+		return
+	}
 	for _, cs := range top.con.CallSites {
 		if cs.Callee != name || cs.N != n {
 			continue
